@@ -367,11 +367,16 @@ type state struct {
 	ETag   string
 	Meta   string
 	Size   int64
+	// Versions: what ListObjectVersions says about the key (bucket with versioning enabled): ids, latest flags, sizes
+	Versions string
 }
 
 func (s state) String() string {
 	if !s.Exists {
 		return "absent"
+	}
+	if s.Versions != "" {
+		return fmt.Sprintf("%d bytes, ETag %s, meta %q, %s", s.Size, s.ETag, s.Meta, s.Versions)
 	}
 	return fmt.Sprintf("%d bytes, ETag %s, meta %q", s.Size, s.ETag, s.Meta)
 }
@@ -411,7 +416,34 @@ func partState(cl *s3c.Client, path, uploadID string) (state, error) {
 }
 
 func same(a, b state) bool {
-	return a.Exists == b.Exists && a.ETag == b.ETag && a.Size == b.Size && bytes.Equal(a.Body, b.Body) && a.Meta == b.Meta
+	return a.Exists == b.Exists && a.ETag == b.ETag && a.Size == b.Size && bytes.Equal(a.Body, b.Body) && a.Meta == b.Meta && a.Versions == b.Versions
+}
+
+// versionsOf: the version history of one key as the API reports it
+func versionsOf(cl *s3c.Client, key string) (string, error) {
+	r, err := cl.Call("GET", "/"+bkt, s3c.Q("versions", "", "prefix", key), nil, nil)
+	if err != nil {
+		return "", err
+	}
+	if !r.OK() {
+		return "", fmt.Errorf("ListObjectVersions: %v", r)
+	}
+	var lv s3c.ListVersionsResult
+	if err := s3c.ParseXML(r, &lv); err != nil {
+		return "", err
+	}
+	var out []string
+	for _, v := range lv.Versions {
+		if v.Key == key {
+			out = append(out, fmt.Sprintf("version %s latest=%v size=%d", v.VersionId, v.IsLatest, v.Size))
+		}
+	}
+	for _, v := range lv.DeleteMarkers {
+		if v.Key == key {
+			out = append(out, fmt.Sprintf("marker %s latest=%v", v.VersionId, v.IsLatest))
+		}
+	}
+	return "versions [" + strings.Join(out, "; ") + "]", nil
 }
 
 type verdict struct {
@@ -464,7 +496,11 @@ func execA(c caseA) (v verdict, err error) {
 		if c.Target == "part" {
 			return partState(w.cl, path, uploadID)
 		}
-		return objState(w.cl, path)
+		st, err := objState(w.cl, path)
+		if err == nil && c.Versioning {
+			st.Versions, err = versionsOf(w.cl, key)
+		}
+		return st, err
 	}
 	before, err := get()
 	if err != nil {
